@@ -26,6 +26,9 @@ def chains_for(ctx, thorough, needfam="", fams=None):
 
 
 def run(ctx):
+    if ctx.replay:
+        return sem.replay(ctx, ctx.replay, mode="taint")
     chains, sim, nexh = chains_for(ctx, ctx.tier == "thorough")
     items = [list(c) for c in chains] + [list(c) for c in sim]
+    items += [c for c in sem.pinned_chains(ctx.prop) if list(c) not in items]
     sem.taint_flow_check(ctx, items, lambda ch, name: semgen.build_chain(ch, name=name), nexh, len(sim))
